@@ -284,6 +284,34 @@ func (a auth) build(ownerIdx int, verb session.ContainerVerb, cnrID *cid.ID, pay
 	return flip(dk.Sign(data)), nil, st.Marshal(), ok
 }
 
+// genRecords draws 1-3 eACL records; the system role may appear nowhere, as
+// the only target of a record, or next to other targets, in any record.
+func genRecords(t *rapid.T) ([]eacl.Record, bool) {
+	n := rapid.IntRange(1, 3).Draw(t, "eaclRecords")
+	sysAt := -1
+	if rapid.IntRange(0, 2).Draw(t, "eaclWithSystem") == 0 {
+		sysAt = rapid.IntRange(0, n-1).Draw(t, "eaclSystemRecord")
+	}
+	var recs []eacl.Record
+	for i := 0; i < n; i++ {
+		var ts []eacl.Target
+		for j, k := 0, rapid.IntRange(1, 3).Draw(t, "eaclTargets"); j < k; j++ {
+			ts = append(ts, eacl.NewTargetByRole(rapid.SampledFrom([]eacl.Role{eacl.RoleOthers, eacl.RoleUser}).Draw(t, "eaclRole")))
+		}
+		if i == sysAt {
+			pos := rapid.IntRange(0, len(ts)).Draw(t, "eaclSystemPos")
+			if rapid.Bool().Draw(t, "eaclSystemSole") {
+				ts = []eacl.Target{eacl.NewTargetByRole(eacl.RoleSystem)}
+			} else {
+				ts = append(ts[:pos], append([]eacl.Target{eacl.NewTargetByRole(eacl.RoleSystem)}, ts[pos:]...)...)
+			}
+		}
+		op := rapid.SampledFrom([]eacl.Operation{eacl.OperationPut, eacl.OperationGet, eacl.OperationDelete}).Draw(t, "eaclOp")
+		recs = append(recs, eacl.ConstructRecord(eacl.ActionDeny, op, ts))
+	}
+	return recs, sysAt >= 0
+}
+
 func (a auth) label() string {
 	if a.Mode == "direct" {
 		return fmt.Sprintf("direct:%s%s%s", a.Signer, map[bool]string{true: "+data", false: ""}[a.DataFlip], map[bool]string{true: "+sig", false: ""}[a.SigFlip])
@@ -355,21 +383,17 @@ func TestC37(t *testing.T) {
 			call      = calls[strings.TrimSuffix(kind, "+eACL")]
 		)
 		eaclPart := func(cnrID cid.ID, ownerIdx int, extendable bool) (*cntEvent.PutContainerEACLRequest, []byte, bool, bool) {
-			role := rapid.SampledFrom([]eacl.Role{eacl.RoleOthers, eacl.RoleOthers, eacl.RoleUser, eacl.RoleSystem}).Draw(t, "eaclRole")
+			recs, hasSystem := genRecords(t)
 			tcid := cnrID
 			if rapid.IntRange(0, 5).Draw(t, "eaclOtherCID") == 0 {
 				tcid = stored[2].id
-			}
-			recs := []eacl.Record{eacl.ConstructRecord(eacl.ActionDeny, eacl.OperationPut, []eacl.Target{eacl.NewTargetByRole(role)})}
-			if rapid.Bool().Draw(t, "eaclSecondRecord") {
-				recs = append(recs, eacl.ConstructRecord(eacl.ActionAllow, eacl.OperationGet, []eacl.Target{eacl.NewTargetByRole(eacl.RoleOthers)}))
 			}
 			tb := eacl.NewTableForContainer(tcid, recs)
 			raw := tb.Marshal()
 			ea := genAuth(t)
 			inv, ver, tok, ok := ea.build(ownerIdx, session.VerbContainerSetEACL, &cnrID, raw)
 			p := &cntEvent.PutContainerEACLRequest{PutContainerEACLParams: fschaincontracts.PutContainerEACLParams{EACL: raw, InvocationScript: inv, VerificationScript: ver, SessionToken: tok}}
-			content := role != eacl.RoleSystem && extendable && tcid == cnrID
+			content := !hasSystem && extendable && tcid == cnrID
 			return p, raw, ok, content
 		}
 
@@ -456,13 +480,9 @@ func TestC37(t *testing.T) {
 			evn = cntEvent.RemoveContainerRequest{MainTransaction: *req.Req.MainTransaction, RemoveContainerParams: fschaincontracts.RemoveContainerParams{ID: id[:], InvocationScript: inv, VerificationScript: ver, SessionToken: tok}}
 		case "putEACL":
 			sc := stored[rapid.IntRange(0, len(stored)-1).Draw(t, "container")]
-			role := rapid.SampledFrom([]eacl.Role{eacl.RoleOthers, eacl.RoleOthers, eacl.RoleUser, eacl.RoleSystem}).Draw(t, "eaclRole")
-			recs := []eacl.Record{eacl.ConstructRecord(eacl.ActionDeny, eacl.OperationPut, []eacl.Target{eacl.NewTargetByRole(role)})}
-			if rapid.Bool().Draw(t, "systemInSecondTarget") {
-				recs = append(recs, eacl.ConstructRecord(eacl.ActionAllow, eacl.OperationGet, []eacl.Target{eacl.NewTargetByRole(eacl.RoleOthers), eacl.NewTargetByRole(role)}))
-			}
+			recs, hasSystem := genRecords(t)
 			raw := eacl.NewTableForContainer(sc.id, recs).Marshal()
-			if role == eacl.RoleSystem {
+			if hasSystem {
 				contentOK = false
 				why = append(why, "system role target")
 			}
